@@ -5,3 +5,4 @@ pub mod c18;
 pub mod c19;
 pub mod recvfm;
 pub mod derive;
+pub mod outer;
